@@ -556,3 +556,48 @@ func (s *vfStubVerifier) VerifyJSONs(ctx context.Context, reqs []VerifyJSONReque
 func vfUserIDForSender(roomID spec.RoomID, senderID spec.SenderID) (*spec.UserID, error) {
 	return spec.NewUserID(string(senderID), true)
 }
+
+// evLookAlikeContentKey: does the content of an event of this type have a key, at any depth (outside
+// the objects keyed by identifiers), that differs from a key the rules read for that type only in
+// letter case / case folding? Such events are refused by the untrusted parsers and by Build since
+// the repair of the case-folding defect (DESIGN 9.2); the table is transcribed from the
+// specification's content definitions, not from the library.
+var evRuleContentKeys = map[string][]string{
+	"m.room.create":             {"additional_creators", "creator", "event_id", "m.federate", "predecessor", "room_id", "room_version", "type"},
+	"m.room.member":             {"avatar_url", "display_name", "displayname", "is_direct", "join_authorised_via_users_server", "membership", "mxid", "mxid_mapping", "reason", "signatures", "signed", "third_party_invite", "token", "user_id", "user_room_key"},
+	"m.room.power_levels":       {"ban", "events", "events_default", "invite", "kick", "notifications", "redact", "state_default", "users", "users_default"},
+	"m.room.join_rules":         {"allow", "join_rule", "room_id", "type"},
+	"m.room.third_party_invite": {"display_name", "key_validity_url", "public_key", "public_keys"},
+	"m.room.redaction":          {"reason", "redacts"},
+}
+
+func evLookAlikeContentKey(typ string, v jv) bool {
+	names, ok := evRuleContentKeys[typ]
+	if !ok {
+		return false
+	}
+	switch v.K {
+	case 'a':
+		for _, e := range v.A {
+			if evLookAlikeContentKey(typ, e) {
+				return true
+			}
+		}
+	case 'o':
+		for _, m := range v.O {
+			for _, n := range names {
+				if m.Key != n && strings.EqualFold(m.Key, n) {
+					return true
+				}
+			}
+			switch m.Key {
+			case "users", "events", "notifications", "signatures":
+				continue
+			}
+			if evLookAlikeContentKey(typ, m.Val) {
+				return true
+			}
+		}
+	}
+	return false
+}
